@@ -404,7 +404,12 @@ def handle (op : String) (args : List String) (rhs : String) : Verdict :=
       if rhs.startsWith "panic" then .bad ("scalar-panic-" ++ name) rhs else
       if rhs.startsWith "ok:" && rhs != "ok:" ++ natToHex (beNat b % q) then
         .bad ("scalar-fromwide-" ++ name) ("expected=ok:" ++ natToHex (beNat b % q) ++ " observed=" ++ rhs)
-      else mirror (match Scalar.fromWideBytes q wide b with | some v => "ok:" ++ natToHex v | none => "reject") rhs
+      else
+        -- the fiat fields split the padded string in two halves (`fromWideSplit`, proved equal to the
+        -- one-shot reduction: `Props.C13.fromWide_split_reduces`); edwards25519's base field masks bits instead
+        let model := if name == "ed25519.base" || wide % 2 != 0 then Scalar.fromWideBytes q wide b
+                     else Scalar.fromWideSplit q (wide / 2) b
+        mirror (match model with | some v => "ok:" ++ natToHex v | none => "reject") rhs
     | _, _, _ => .unsupported "swide args"
   | "sred", [name, qs, bs] =>
     match hexToNat? qs, bytesOf? bs with
